@@ -1,8 +1,8 @@
 SPECIFICATION Spec
 CONSTANTS
-  StrictA = FALSE
+  T <- TraceT
+  StrictA = TRUE
   CheckCat = FALSE
-  CheckOrder = FALSE
-INVARIANTS WellFormed OtherWellFormed
+INVARIANTS RefinesSeq IterOK PartialOK
 POSTCONDITION TraceAccepted
 CHECK_DEADLOCK FALSE
